@@ -325,8 +325,8 @@ def run(ctx, selftest=False):
         r = ctx.tlc_expect_ok(D, 'MC_Dispatch.tla', 'MC_Dispatch_live.cfg', timeout=900, heap=MC_HEAP)
         ctx.log('MC_Dispatch_live (EveryKernelCompletes under fair CUs/driver): %d distinct states' % r.distinct)
     if thorough and not nomc:
-        for cfg in ['MC_Dispatch.cfg', 'MC_Dispatch_asimpl.cfg', 'MC_Dispatch_greedy.cfg', 'MC_Dispatch_partition.cfg',
-                    'MC_Dispatch_3cu.cfg']:
+        # (MC_Dispatch_asimpl.cfg = the tree before /repo 12f593b7, kept for reference: 136 630 states, passes)
+        for cfg in ['MC_Dispatch.cfg', 'MC_Dispatch_greedy.cfg', 'MC_Dispatch_partition.cfg', 'MC_Dispatch_3cu.cfg']:
             r = ctx.tlc_expect_ok(D, 'MC_Dispatch.tla', cfg, workers=8, timeout=3000, heap='6g')
             ctx.log('%s: %d distinct states, depth %d' % (cfg, r.distinct, r.depth))
         ctx.cov['exhaustive'] = True
@@ -374,7 +374,7 @@ def run(ctx, selftest=False):
     parts += validate(ctx, t0, {'cmd': 'c09', 'scenarios': [lead_scen]})
 
     # 4. code -> spec: seeded adversarial environments (finite fake CUs)
-    nrand = 1500 if thorough else 150
+    nrand = 1000 if thorough else 150
     t2 = os.path.join(ctx.scratch, 'trace_rand.ndjson')
     args = ['-random', nrand, '-launches', 8 if thorough else 6, '-seed', ctx.seed]
     st2 = drive(ctx, drv, args, t2)
